@@ -229,105 +229,155 @@ theorem reads_stack (fuel : Nat) {vs : List (Val R)} {b : Bits} {r : List R} (hl
 
 /-! ### the parser inverts the schema relation
 
-Mutual structural recursion over the derivation.  Each case takes the fuel bounds of its sub-derivations and
-adds one unit for its own call, exactly as the model's parser spends one unit per nested call. -/
+The model parser spends one unit of `fuel` per nested call (Python has no such budget).  `fuelV` … `fuelC` give a
+budget that suffices for a value / tuple / stack list / continuation / control data: one unit for the call itself
+plus the budgets of the parts (for a tuple entry two more: `VmTuple` and `VmTupleRef` alternate).  `de_*` is a
+mutual structural recursion over the schema derivation: for every budget from that bound on the parser consumes
+exactly the encoding from the front of any slice and returns the encoded object. -/
 
 mutual
-theorem de_val : ∀ {v : Val R} {b : Bits} {r : List R}, IsValue view ord v b r → From (De.val view ord) b r v
-  | _, _, _, .null => From.succ 0 fun f _ => reads_val_null f
-  | _, _, _, .tinyint v hv => From.succ 0 fun f _ => reads_val_tinyint f v hv
-  | _, _, _, .int257 v _ hv => From.succ 0 fun f _ => reads_val_int257 f v hv
-  | _, _, _, .cell c => From.succ 0 fun f _ => reads_val_cell f c
-  | _, _, _, .slice hs => From.succ 0 fun f _ => reads_val_slice f hs
-  | _, _, _, .builder c hc hv => by
-    have := From.succ (p := De.val view ord) 0 fun f _ => reads_val_builder (view := view) f c hc
+/-- recursion budget that suffices for `VmStackValue.deserialize` to return `v` -/
+def fuelV : Val R → Nat
+  | .cont k => fuelK k + 1
+  | .tuple vs => fuelT vs + 1
+  | _ => 1
+/-- … for `VmTuple.deserialize` (`VmTupleRef.deserialize` needs one more) -/
+def fuelT : List (Val R) → Nat
+  | [] => 1
+  | v :: rest => fuelV v + fuelT rest + 2
+/-- … for `VmStackList.deserialize` / `VmStack.deserialize` -/
+def fuelL : List (Val R) → Nat
+  | [] => 1
+  | v :: rest => fuelV v + fuelL rest + 1
+/-- … for `VmCont.deserialize` -/
+def fuelK : Cont R → Nat
+  | .std cd _ _ => fuelC cd + 1
+  | .envelope cd next => fuelC cd + fuelK next + 1
+  | .quit _ => 1
+  | .quitExc => 1
+  | .repeat_ _ b a => fuelK b + fuelK a + 1
+  | .until_ b a => fuelK b + fuelK a + 1
+  | .again b => fuelK b + 1
+  | .whileCond c b a => fuelK c + fuelK b + fuelK a + 1
+  | .whileBody c b a => fuelK c + fuelK b + fuelK a + 1
+  | .pushint _ n => fuelK n + 1
+/-- … for `VmControlData.deserialize` -/
+def fuelC : Ctl R → Nat
+  | .mk _ none _ _ => 1
+  | .mk _ (some st) _ _ => fuelL st + 1
+end
+
+theorem fuel_pred {fuel n : Nat} (h : n + 1 ≤ fuel) : ∃ f, fuel = f + 1 ∧ n ≤ f := ⟨fuel - 1, by omega, by omega⟩
+
+mutual
+theorem de_val : ∀ {v : Val R} {b : Bits} {r : List R}, IsValue view ord v b r →
+    ∀ fuel, fuelV v ≤ fuel → Reads (De.val view ord fuel) b r v
+  | _, _, _, .null, fuel, hf => by
+    obtain ⟨f, rfl, _⟩ := fuel_pred (n := 0) (by simpa [fuelV] using hf); exact reads_val_null f
+  | _, _, _, .tinyint v hv, fuel, hf => by
+    obtain ⟨f, rfl, _⟩ := fuel_pred (n := 0) (by simpa [fuelV] using hf); exact reads_val_tinyint f v hv
+  | _, _, _, .int257 v _ hv, fuel, hf => by
+    obtain ⟨f, rfl, _⟩ := fuel_pred (n := 0) (by simpa [fuelV] using hf); exact reads_val_int257 f v hv
+  | _, _, _, .cell c, fuel, hf => by
+    obtain ⟨f, rfl, _⟩ := fuel_pred (n := 0) (by simpa [fuelV] using hf); exact reads_val_cell f c
+  | _, _, _, .slice hs, fuel, hf => by
+    obtain ⟨f, rfl, _⟩ := fuel_pred (n := 0) (by simpa [fuelV] using hf); exact reads_val_slice f hs
+  | _, _, _, .builder c hc hv, fuel, hf => by
+    obtain ⟨f, rfl, _⟩ := fuel_pred (n := 0) (by simpa [fuelV] using hf)
+    have := reads_val_builder (view := view) f c hc
     rw [hv] at this; exact this
-  | _, _, _, .cont hk => by
-    obtain ⟨n, hn⟩ := de_cont hk
+  | _, _, _, .cont hk, fuel, hf => by
+    obtain ⟨f, rfl, h1⟩ := fuel_pred (by simpa [fuelV] using hf)
     obtain ⟨i, hi, rest, hb⟩ := isCont_tag hk
-    exact From.succ n fun f hf => reads_val_cont f i hi rest hb (hn f hf)
-  | _, _, _, .tuple hl ht => by
-    obtain ⟨n, hn⟩ := de_tuple ht
-    exact From.succ n fun f hf => reads_val_tuple f hl (hn f hf)
+    exact reads_val_cont f i hi rest hb (de_cont hk f h1)
+  | _, _, _, .tuple hl ht, fuel, hf => by
+    obtain ⟨f, rfl, h1⟩ := fuel_pred (by simpa [fuelV] using hf)
+    exact reads_val_tuple f hl (de_tuple ht f h1)
 theorem de_tuple : ∀ {n : Nat} {vs : List (Val R)} {b : Bits} {r : List R}, IsTuple view ord n vs b r →
-    From (fun f => De.tuple view ord f n) b r vs
-  | _, _, _, _, .nil => From.succ 0 fun f _ => reads_tuple_nil f
-  | _, _, _, _, .tcons c hhd hv => by
-    obtain ⟨n1, h1⟩ := de_tupleRef hhd
-    obtain ⟨n2, h2⟩ := de_val hv
-    exact From.succ (n1 + n2) fun f hf => reads_tuple_tcons f _ c (h1 f (by omega)) (h2 f (by omega))
+    ∀ fuel, fuelT vs ≤ fuel → Reads (De.tuple view ord fuel n) b r vs
+  | _, _, _, _, .nil, fuel, hf => by
+    obtain ⟨f, rfl, _⟩ := fuel_pred (n := 0) (by simpa [fuelT] using hf); exact reads_tuple_nil f
+  | _, _, _, _, .tcons c hhd hv, fuel, hf => by
+    simp only [fuelT] at hf
+    obtain ⟨f, rfl, h1⟩ := fuel_pred hf
+    exact reads_tuple_tcons f _ c (de_tupleRef hhd f (by omega)) (de_val hv f (by omega))
 theorem de_tupleRef : ∀ {n : Nat} {vs : List (Val R)} {b : Bits} {r : List R}, IsTupleRef view ord n vs b r →
-    From (fun f => De.tupleRef view ord f n) b r vs
-  | _, _, _, _, .nil => From.succ 0 fun f _ => reads_tupleRef_nil f
-  | _, _, _, _, .single c hv => by
-    obtain ⟨n1, h1⟩ := de_val hv
-    exact From.succ n1 fun f hf => reads_tupleRef_single f c (h1 f hf)
-  | _, _, _, _, .any c ht => by
-    obtain ⟨n1, h1⟩ := de_tuple ht
-    exact From.succ n1 fun f hf => reads_tupleRef_any f _ c (h1 f hf)
+    ∀ fuel, fuelT vs + 1 ≤ fuel → Reads (De.tupleRef view ord fuel n) b r vs
+  | _, _, _, _, .nil, fuel, hf => by
+    obtain ⟨f, rfl, _⟩ := fuel_pred hf; exact reads_tupleRef_nil f
+  | _, _, _, _, .single c hv, fuel, hf => by
+    simp only [fuelT] at hf
+    obtain ⟨f, rfl, h1⟩ := fuel_pred hf
+    exact reads_tupleRef_single f c (de_val hv f (by omega))
+  | _, _, _, _, .any c ht, fuel, hf => by
+    obtain ⟨f, rfl, h1⟩ := fuel_pred hf
+    exact reads_tupleRef_any f _ c (de_tuple ht f h1)
 theorem de_stackList : ∀ {n : Nat} {vs : List (Val R)} {b : Bits} {r : List R}, IsStackList view ord n vs b r →
-    From (fun f => De.stackList view ord f n) b r vs
-  | _, _, _, _, .nil => From.succ 0 fun f _ => reads_stackList_nil f
-  | _, _, _, _, .cons c hrest hv => by
-    obtain ⟨n1, h1⟩ := de_stackList hrest
-    obtain ⟨n2, h2⟩ := de_val hv
-    exact From.succ (n1 + n2) fun f hf => reads_stackList_cons f _ c (h1 f (by omega)) (h2 f (by omega))
-theorem de_cont : ∀ {k : Cont R} {b : Bits} {r : List R}, IsCont view ord k b r → From (De.cont view ord) b r k
-  | _, _, _, .std hcd hcs => by
-    obtain ⟨n1, h1⟩ := de_ctl hcd
-    exact From.succ n1 fun f hf => reads_cont_std f (h1 f hf) hcs
-  | _, _, _, .envelope c hcd hn => by
-    obtain ⟨n1, h1⟩ := de_ctl hcd
-    obtain ⟨n2, h2⟩ := de_cont hn
-    exact From.succ (n1 + n2) fun f hf => reads_cont_envelope f c (h1 f (by omega)) (h2 f (by omega))
-  | _, _, _, .quit code h => From.succ 0 fun f _ => reads_cont_quit f code h
-  | _, _, _, .quitExc => From.succ 0 fun f _ => reads_cont_quitExc f
-  | _, _, _, .repeat_ count cb ca hc hb ha => by
-    obtain ⟨n1, h1⟩ := de_cont hb
-    obtain ⟨n2, h2⟩ := de_cont ha
-    exact From.succ (n1 + n2) fun f hf => reads_cont_repeat f count cb ca hc (h1 f (by omega)) (h2 f (by omega))
-  | _, _, _, .until_ cb ca hb ha => by
-    obtain ⟨n1, h1⟩ := de_cont hb
-    obtain ⟨n2, h2⟩ := de_cont ha
-    exact From.succ (n1 + n2) fun f hf => reads_cont_until f cb ca (h1 f (by omega)) (h2 f (by omega))
-  | _, _, _, .again cb hb => by
-    obtain ⟨n1, h1⟩ := de_cont hb
-    exact From.succ n1 fun f hf => reads_cont_again f cb (h1 f hf)
-  | _, _, _, .whileCond cc cb ca hc hb ha => by
-    obtain ⟨n0, h0⟩ := de_cont hc
-    obtain ⟨n1, h1⟩ := de_cont hb
-    obtain ⟨n2, h2⟩ := de_cont ha
-    exact From.succ (n0 + n1 + n2) fun f hf =>
-      reads_cont_whileCond f cc cb ca (h0 f (by omega)) (h1 f (by omega)) (h2 f (by omega))
-  | _, _, _, .whileBody cc cb ca hc hb ha => by
-    obtain ⟨n0, h0⟩ := de_cont hc
-    obtain ⟨n1, h1⟩ := de_cont hb
-    obtain ⟨n2, h2⟩ := de_cont ha
-    exact From.succ (n0 + n1 + n2) fun f hf =>
-      reads_cont_whileBody f cc cb ca (h0 f (by omega)) (h1 f (by omega)) (h2 f (by omega))
-  | _, _, _, .pushint value c hv hn => by
-    obtain ⟨n1, h1⟩ := de_cont hn
-    exact From.succ n1 fun f hf => reads_cont_pushint f value c hv (h1 f hf)
-theorem de_ctl : ∀ {cd : Ctl R} {b : Bits} {r : List R}, IsCtl view ord cd b r → From (De.ctl view ord) b r cd
-  | _, _, _, .noStack hn hc => From.succ 0 fun f _ => reads_ctl_noStack f hn hc
-  | _, _, _, .withStack hn hc hl hst => by
-    obtain ⟨n1, h1⟩ := de_stackList hst
-    exact From.succ n1 fun f hf => reads_ctl_withStack f hn hc hl (h1 f hf)
+    ∀ fuel, fuelL vs ≤ fuel → Reads (De.stackList view ord fuel n) b r vs
+  | _, _, _, _, .nil, fuel, hf => by
+    obtain ⟨f, rfl, _⟩ := fuel_pred (n := 0) (by simpa [fuelL] using hf); exact reads_stackList_nil f
+  | _, _, _, _, .cons c hrest hv, fuel, hf => by
+    simp only [fuelL] at hf
+    obtain ⟨f, rfl, h1⟩ := fuel_pred hf
+    exact reads_stackList_cons f _ c (de_stackList hrest f (by omega)) (de_val hv f (by omega))
+theorem de_cont : ∀ {k : Cont R} {b : Bits} {r : List R}, IsCont view ord k b r →
+    ∀ fuel, fuelK k ≤ fuel → Reads (De.cont view ord fuel) b r k
+  | _, _, _, .std hcd hcs, fuel, hf => by
+    simp only [fuelK] at hf
+    obtain ⟨f, rfl, h1⟩ := fuel_pred hf
+    exact reads_cont_std f (de_ctl hcd f h1) hcs
+  | _, _, _, .envelope c hcd hn, fuel, hf => by
+    simp only [fuelK] at hf
+    obtain ⟨f, rfl, h1⟩ := fuel_pred hf
+    exact reads_cont_envelope f c (de_ctl hcd f (by omega)) (de_cont hn f (by omega))
+  | _, _, _, .quit code h, fuel, hf => by
+    obtain ⟨f, rfl, _⟩ := fuel_pred (n := 0) (by simpa [fuelK] using hf); exact reads_cont_quit f code h
+  | _, _, _, .quitExc, fuel, hf => by
+    obtain ⟨f, rfl, _⟩ := fuel_pred (n := 0) (by simpa [fuelK] using hf); exact reads_cont_quitExc f
+  | _, _, _, .repeat_ count cb ca hc hb ha, fuel, hf => by
+    simp only [fuelK] at hf
+    obtain ⟨f, rfl, h1⟩ := fuel_pred hf
+    exact reads_cont_repeat f count cb ca hc (de_cont hb f (by omega)) (de_cont ha f (by omega))
+  | _, _, _, .until_ cb ca hb ha, fuel, hf => by
+    simp only [fuelK] at hf
+    obtain ⟨f, rfl, h1⟩ := fuel_pred hf
+    exact reads_cont_until f cb ca (de_cont hb f (by omega)) (de_cont ha f (by omega))
+  | _, _, _, .again cb hb, fuel, hf => by
+    simp only [fuelK] at hf
+    obtain ⟨f, rfl, h1⟩ := fuel_pred hf
+    exact reads_cont_again f cb (de_cont hb f h1)
+  | _, _, _, .whileCond cc cb ca hc hb ha, fuel, hf => by
+    simp only [fuelK] at hf
+    obtain ⟨f, rfl, h1⟩ := fuel_pred hf
+    exact reads_cont_whileCond f cc cb ca (de_cont hc f (by omega)) (de_cont hb f (by omega)) (de_cont ha f (by omega))
+  | _, _, _, .whileBody cc cb ca hc hb ha, fuel, hf => by
+    simp only [fuelK] at hf
+    obtain ⟨f, rfl, h1⟩ := fuel_pred hf
+    exact reads_cont_whileBody f cc cb ca (de_cont hc f (by omega)) (de_cont hb f (by omega)) (de_cont ha f (by omega))
+  | _, _, _, .pushint value c hv hn, fuel, hf => by
+    simp only [fuelK] at hf
+    obtain ⟨f, rfl, h1⟩ := fuel_pred hf
+    exact reads_cont_pushint f value c hv (de_cont hn f h1)
+theorem de_ctl : ∀ {cd : Ctl R} {b : Bits} {r : List R}, IsCtl view ord cd b r →
+    ∀ fuel, fuelC cd ≤ fuel → Reads (De.ctl view ord fuel) b r cd
+  | _, _, _, .noStack hn hc, fuel, hf => by
+    obtain ⟨f, rfl, _⟩ := fuel_pred (n := 0) (by simpa [fuelC] using hf); exact reads_ctl_noStack f hn hc
+  | _, _, _, .withStack hn hc hl hst, fuel, hf => by
+    simp only [fuelC] at hf
+    obtain ⟨f, rfl, h1⟩ := fuel_pred hf
+    exact reads_ctl_withStack f hn hc hl (de_stackList hst f h1)
 end
 
 
-theorem de_stack {vs : List (Val R)} {b : Bits} {r : List R} (h : IsStack view ord vs b r) :
-    From (De.stack view ord) b r vs := by
+theorem de_stack {vs : List (Val R)} {b : Bits} {r : List R} (h : IsStack view ord vs b r) (fuel : Nat)
+    (hf : fuelL vs ≤ fuel) : Reads (De.stack view ord fuel) b r vs := by
   obtain ⟨hl, hs⟩ := h
-  obtain ⟨n, hn⟩ := de_stackList hs
-  exact ⟨n, fun f hf => reads_stack f hl (hn f hf)⟩
+  exact reads_stack fuel hl (de_stackList hs fuel hf)
 
 /-- whole-cell form: a cell whose content is a schema encoding of `vs` is parsed to `vs` with nothing left over -/
-theorem de_stack_cell {vs : List (Val R)} {c : R} (h : IsStack view ord vs (view c).1 (view c).2) :
-    ∃ n, ∀ fuel, n ≤ fuel → De.stack view ord fuel ⟨(view c).1, (view c).2⟩ = (⟨[], []⟩, some vs) := by
-  obtain ⟨n, hn⟩ := de_stack h
-  refine ⟨n, fun f hf => ?_⟩
-  have := hn f hf [] []
+theorem de_stack_cell {vs : List (Val R)} {c : R} (h : IsStack view ord vs (view c).1 (view c).2) (fuel : Nat)
+    (hf : fuelL vs ≤ fuel) : De.stack view ord fuel ⟨(view c).1, (view c).2⟩ = (⟨[], []⟩, some vs) := by
+  have := de_stack h fuel hf [] []
   simpa using this
 
 end TonVerif.Proofs.Vm
